@@ -4,7 +4,7 @@ def units_for(prop, reg, tier):
         u.append(("fxvc.obl:run", "fx:frames"))
     if prop == "C19":
         u += [("fxvc.obl:run", "fx:readonly"), ("fxvc.obl:run", "fx:frames")]
-    if prop in ("C02", "C06", "C07", "C08", "C09", "C10", "C14"):
+    if prop in ("C01", "C02", "C06", "C07", "C08", "C09", "C10", "C11", "C12", "C14", "C15"):
         # the section parsers receive one-shot iterators: each must consume its lines once
         u.append(("fxvc.obl:run", "fx:iterables"))
     if prop not in ("C17", "C13", "C19") and any(prop in c.props for c in reg.all()):
